@@ -118,6 +118,8 @@ class _FnWalker:
         self.loop_stack: list = []
         self.decl_stack: dict = {}
         self.accesses: list = []  # (base, [subscripts], dims, line, loop bounds snapshot)
+        self._read_keys: set = set()
+        self.reads: list = []  # Write-like records for loads from pointer parameters / local pointers
         self.scalar_write_ctx: list = []  # (name, line, loop stack)
         self.parallel: dict = {}  # loop symbol -> OMP directive node
 
@@ -136,7 +138,32 @@ class _FnWalker:
         s.loopvars = self.loopvars
         s.decl_stack = self.decl_stack
         s.accesses = self.accesses
+        s.reads = self.reads
         return s
+
+    def _record_read(self, base, idx, qt, node):
+        if base in self.alias:
+            b0, off0, dims0 = self.alias[base]
+            off, rem = _flatten(idx, dims0)
+            index, base_name = off0 + off, b0
+        else:
+            qt2 = self.params.get(base) or self.local_types.get(base) or qt
+            _, dims, isptr = type_dims(qt2)
+            if not dims:
+                return
+            off, rem = _flatten(idx, dims)
+            index, base_name = off, base
+        if base_name not in self.params:
+            return
+        try:
+            index = sp.expand(index)
+        except Exception:
+            return
+        key = (base_name, str(index))
+        if key in self._read_keys:
+            return
+        self._read_keys.add(key)
+        self.reads.append(Write(base_name, "param", index, self.vars_of(index), "read", self.tu.line(node) or 0, self.name, (), [], tuple(self.loop_stack)))
 
     def _sw(self, nm, line):
         self.scalar_writes.setdefault(nm, []).append(line)
@@ -174,7 +201,8 @@ class _FnWalker:
                 if op == "%":
                     return sp.Mod(a, b)
         if k == "ArraySubscriptExpr":
-            base, idx, _, _ = self.subscript_chain(e, env)
+            base, idx, qt, _ = self.subscript_chain(e, env)
+            self._record_read(base, idx, qt, e)
             return sp.Function(f"load:{base}")(*idx)
         if k == "CallExpr":
             return sp.Function(f"call:{cast.callee_name(e)}")(*[self.ev(a, env) if cast.is_int_type(cast.qtype(a)) else sp.Symbol("_") for a in cast.call_args(e)])
@@ -302,6 +330,11 @@ class _FnWalker:
             lhs, rhs = ks
             self.visit_calls(rhs, env)
             l = cast.strip(lhs)
+            if l.get("kind") == "ArraySubscriptExpr":
+                for sub in cast.kids(l)[1:]:
+                    self.scan_reads(sub, env)
+                if s.get("kind") == "CompoundAssignOperator":
+                    self.scan_reads(l, env)
             if l.get("kind") == "DeclRefExpr":
                 nm = l["referencedDecl"]["name"]
                 if s["opcode"] == "=":
@@ -371,9 +404,33 @@ class _FnWalker:
             self.visit_calls(s, env)
 
     def visit_calls(self, e, env):
+        self.scan_reads(e, env)
         for x in cast.walk(e):
             if x.get("kind") == "CallExpr":
                 self.call(x, env, self.tu.line(x) or 0)
+
+    def scan_reads(self, e, env):
+        """Record every array load in an expression tree (outermost subscript chains)."""
+        stack = [e]
+        while stack:
+            x = stack.pop()
+            if not isinstance(x, dict):
+                continue
+            if x.get("kind") == "ArraySubscriptExpr":
+                try:
+                    base, idx, qt, _ = self.subscript_chain(x, env)
+                    self._record_read(base, idx, qt, x)
+                except Exception:
+                    pass
+                # subscripts of the chain may contain further loads
+                cur = x
+                while cast.strip(cur).get("kind") == "ArraySubscriptExpr":
+                    cur = cast.strip(cur)
+                    b, i = cast.kids(cur)
+                    stack.append(i)
+                    cur = b
+                continue
+            stack.extend(cast.kids(x))
 
     def assign_name(self, nm, rhs, env, line, decl=False):
         qt = self.local_types.get(nm) or self.params.get(nm, "")
@@ -524,6 +581,24 @@ class _FnWalker:
             vars_.update(self.vars_of(idx))
             kind = "param" if base in self.params else ("local_ptr" if type_dims(self.local_types.get(base, ""))[2] else "local_array")
             self.writes.append(Write(base, kind, idx, vars_, w.op, line, self.name, (cn,) + w.via, [], tuple(self.loop_stack)))
+        for w in getattr(summ, "reads", []):
+            pv = ptr.get(w.base)
+            if pv is None:
+                continue
+            base, off, dims = pv
+            if base not in self.params:
+                continue
+            try:
+                idx = sp.expand(off + w.index.subs(sub, simultaneous=True))
+            except Exception:
+                continue
+            vars_ = {v: (lo.subs(sub, simultaneous=True) if hasattr(lo, "subs") else lo, hi.subs(sub, simultaneous=True) if hasattr(hi, "subs") else hi) for v, (lo, hi) in w.vars.items()}
+            vars_.update(self.vars_of(idx))
+            key = (base, str(idx))
+            if key in self._read_keys:
+                continue
+            self._read_keys.add(key)
+            self.reads.append(Write(base, "param", idx, vars_, "read", line, self.name, (cn,) + w.via, [], tuple(self.loop_stack)))
         for u in summ.reads_unknown:
             if u not in self.unknown:
                 self.unknown.append(u)
